@@ -132,6 +132,13 @@ func openPty(cols, rows int) (master *os.File, slave *os.File, err error) {
 		unix.Close(fd)
 		return nil, nil, err
 	}
+	// NOFLSH: a ctrl-c / ctrl-z / ctrl-\ byte typed while the line discipline is cooked (that is: after fzf has
+	// restored the terminal on its way out, before we have noticed the exit) would otherwise make the kernel throw
+	// away the output we have not read yet -- including the mode-restoring sequences the C14 check looks for.
+	if ta, e := unix.IoctlGetTermios(sfd, unix.TCGETS); e == nil && os.Getenv("PTY_FLSH") == "" {
+		ta.Lflag |= unix.NOFLSH
+		unix.IoctlSetTermios(sfd, unix.TCSETS, ta)
+	}
 	return os.NewFile(uintptr(fd), "ptmx"), os.NewFile(uintptr(sfd), "pts"), nil
 }
 
